@@ -41,10 +41,27 @@ package dtls
 // Emission of handshake records (DTLS 1.2 path): every fragment gets its own freshly allocated
 // sequence number, and the header that is marshalled and handed to the cipher suite carries it.
 
+//@ assume-pure Conn.paddingLengthGenerator
+
+//@ func Conn.processProtectedHandshakePacket
+//@ noinline
+//@ end
+
+//@ func Conn.processProtectedPacket
+//@ noinline
+//@ end
+
+//@ func Conn.fragmentHandshake
+//@ noinline
+//@ end
+
 //@ func Conn.processHandshakePacket
 //@ watch Conn.nextLocalSequenceNumber CipherSuite.Encrypt
 //@ requires state12: has12(c)
 //@ requires args: pkt != nil && pkt.Record != nil && dtlsHandshake != nil
+//@ requires callbacks: c.paddingLengthGenerator != nil
+//@ requires suite: pkt.ShouldEncrypt ==> S12(c).Common.CipherSuite != nil
+//@ loop rangeindex: state-kept: has12(c) && pkt.Record != nil && pkt.Record == old(pkt.Record) && pkt.ShouldEncrypt == old(pkt.ShouldEncrypt) && common == S12(c).Common && (pkt.ShouldEncrypt ==> S12(c).Common.CipherSuite != nil)
 //@ loop rangeindex: header-seq-is-allocated: ncalls("Conn.nextLocalSequenceNumber") > 0 ==> pkt.Record.Header.SequenceNumber == retU64("Conn.nextLocalSequenceNumber", 0)
 //@ loop rangeindex: encrypt-sees-allocated: called("CipherSuite.Encrypt") ==> argAs("CipherSuite.Encrypt", 1, *pkt.Record).Header.SequenceNumber == retU64("Conn.nextLocalSequenceNumber", 0)
 //@ end
